@@ -205,15 +205,17 @@ Inductive rd :=
 | RStr (name : string) (d : option string)     (* _get_str_attribute(node, name, d) *)
 | RIn (i : Z).                                 (* _get_input(node, i) *)
 
-(* (calling function, call), in source order; dft_axis = the default the DFT adapter passes for `axis`
-   (Some 1 since the default-axis repair, None before it) *)
+(* (calling function -- an adapter is named by its registration: <op>_<from>_<to> --, call), SORTED by (caller, call) as the
+   translator emits them: the readers are side-effect free (their translated bodies are functions of the node, HelpersProofs),
+   so the order in which an adapter reads its attributes carries no information.  dft_axis = the default the DFT adapter
+   passes for `axis` (Some 1 since the default-axis repair, None before it) *)
 Definition model_reads (dft_axis : option Z) : list (string * rd) :=
-  [ ("dft_19_20", RInt "inverse" (Some 0)); ("dft_19_20", RInt "onesided" (Some 0)); ("dft_19_20", RInt "axis" dft_axis);
+  [ ("_unconvertible_reason", RIn 0); ("_unconvertible_reason", RIn 1);
+    ("dft_19_20", RInt "axis" dft_axis); ("dft_19_20", RInt "inverse" (Some 0)); ("dft_19_20", RInt "onesided" (Some 0));
     ("gridsample_19_20", RInt "align_corners" (Some 0)); ("gridsample_19_20", RStr "mode" (Some "linear"));
     ("gridsample_19_20", RStr "padding_mode" (Some "zeros"));
     ("groupnormalization_20_21", RIn 0); ("groupnormalization_20_21", RIn 1); ("groupnormalization_20_21", RIn 2);
-    ("groupnormalization_20_21", RInt "num_groups" None);
-    ("_unconvertible_reason", RIn 0); ("_unconvertible_reason", RIn 1) ].
+    ("groupnormalization_20_21", RInt "num_groups" None) ].
 
 Definition oz_eq (a b : option Z) : bool := match a, b with Some x, Some y => x =? y | None, None => true | _, _ => false end.
 Definition os_eq (a b : option string) : bool :=
